@@ -1,7 +1,7 @@
 /-
   Driver suite `engine`: one session history per line (key=value tokens, keys may repeat).
 
-    mode=long|pers out=N cache=N flags=N root=hex lang=hex sep=hex roe=0|1
+    mode=long|pers|lp out=N cache=N flags=N root=hex lang=hex sep=hex roe=0|1
     node=<sym>:<code>            bytecode of a node
     tpl=<lang|->:<sym>:<text>    template (translation when lang given)
     label=<lang|->:<sym>:<text>  menu label; unlisted labels resolve to the symbol itself
@@ -199,9 +199,12 @@ def reqOutStr (r : ReqOut) : String :=
 def engCaseRun (c : EngCase) : String :=
   let env := envOf c
   let cfg := c.cfg
-  if c.mode = "long" then
-    -- a long-lived engine is given its state and cache explicitly (WithState / WithMemory)
-    let e0 : Eng := { vm := newVmSt cfg (St.new cfg.flagCount) (freshCache cfg) {}, explicitState := true }
+  if c.mode = "long" || c.mode = "lp" then
+    -- a long-lived engine is given its state and cache explicitly (WithState / WithMemory); in mode lp it is given a
+    -- persister over an empty store instead, and takes its state from there when it is first prepared
+    let e0 : Eng := if c.mode = "long"
+      then { vm := newVmSt cfg (St.new cfg.flagCount) (freshCache cfg) {}, explicitState := true }
+      else restore env cfg none {}
     let (_, outs, _) := c.inputs.foldl (fun (acc : Eng × List String × Bool) input =>
       let (e, outs, stopped) := acc
       if stopped then (e, outs ++ ["stopped"], true) else
